@@ -163,7 +163,7 @@ def conditioning_site(prog):
     key = "%s:literal-status" % fn.npath
     labs = [cs for cs in te.calls if cs.callee.name == "label" and "next(" in show(cs.args[0])]
     if not labs:
-        raise CheckerError("LC: Cnf::condition compares no clause literal")
+        return conditioning_chain_form(prog, fn, key)
     g = min(labs, key=lambda c: cfg.rpo_index[c.bb])
     loops = sorted([h for h, body in cfg.loop_headers.items() if g.bb in body], key=lambda h: len(cfg.loop_headers[h]))
     header = loops[0]
@@ -221,6 +221,130 @@ def conditioning_site(prog):
             errs.append("a literal on another variable is not kept (does %s)" % pp(ot))
     return inst("LC", key, VIOLATION if errs else OK, fn, g.line,
                 errs[0] if errs else "same literal → clause dropped; complementary → literal dropped; other → kept")
+
+
+def conditioning_chain_form(prog, fn, key):
+    """Cnf::condition written as an iterator pipeline: clauses.filter(|c| !c.any(SAME)).map(|c| c.filter(KEEP).collect()).
+    The two literal predicates are *evaluated* over (same variable, polarity of l, polarity of lit): SAME must hold exactly
+    for the conditioning literal itself; KEEP must hold for every literal on another variable and fail for the
+    complement (its value on the conditioning literal itself is irrelevant: such clauses are gone)."""
+    from . import canon
+    CL, LIT = ("sym", "clause"), ("sym", "l")
+    und = lambda why: inst("LC", key, UNDECIDED, fn, None, "? " + why)
+
+    def peel(t):
+        t = strip(t)
+        while isinstance(t, tuple) and t and (t[0] in ("ref", "deref") or
+                (t[0] == "call" and t[1].name in ("collect", "copied", "cloned", "deref", "new", "into_iter", "iter", "to_vec") and t[2])):
+            t = strip(t[1] if t[0] != "call" else t[2][0])
+        return t
+    r = peel(fn.terms.ret)
+    if not (mir.is_call(r, "map") and len(r[2]) == 2):
+        return und("Cnf::condition compares no clause literal in a loop and is not a filter/map pipeline")
+    flt, M = peel(r[2][0]), r[2][1]
+    if not (mir.is_call(flt, "filter") and len(flt[2]) == 2 and "clauses" in show(flt[2][0])):
+        return und("the clause pipeline does not start with a filter over the clause list")
+    F = flt[2][1]
+    def apply(clo, arg):
+        # like canon.apply_closure, but the iterator local of `c.iter().any(..)` (a `&mut` temporary) may stay in the term
+        g, c = canon.closure_fn(prog, clo)
+        if g is None or g.terms.ret is None:
+            return None
+        names = c[5] if len(c) > 5 else ()
+        return canon.subst(g.terms.ret, {2: arg}, dict(zip(names, c[4])))
+    fb = apply(F, CL)
+    mb = apply(M, CL)
+    if fb is None or mb is None:
+        return und("pipeline closures not readable")
+    fb, neg = strip(fb), False
+    while isinstance(fb, tuple) and fb and fb[0] == "un" and fb[1] == "Not":
+        fb, neg = strip(fb[2]), not neg
+    if not (fb[0] == "call" and fb[1].name in ("any", "all") and len(fb[2]) == 2):
+        return und("the clause filter is not any()/all() over the clause's literals")
+    # clause kept iff  neg ^ any(A)   resp.  neg ^ all(A')
+    quant = fb[1].name
+    A = apply(fb[2][1], LIT)
+    mb = peel(mb)
+    if not (mir.is_call(mb, "filter") and len(mb[2]) == 2):
+        return und("the per-clause map is not a filter over the clause's literals")
+    Bt = apply(mb[2][1], LIT)
+    if A is None or Bt is None:
+        return und("literal predicates not readable")
+
+    def side(t):
+        subs = list(mir.subterms(t)) + [strip(t)]
+        if LIT in subs:
+            return "l"
+        if ("param", 2) in subs:
+            return "lit"
+        return None
+
+    def bval(c, case):
+        same, lp, p = case
+        c = strip(c)
+        while isinstance(c, tuple) and c and c[0] in ("ref", "deref"):
+            c = strip(c[1])
+        if c[0] == "const":
+            return int(str(c[2]) in ("1", "true"))
+        if c[0] == "un" and c[1] == "Not":
+            return 1 - bval(c[2], case)
+        if (c[0] == "bin" and c[1] in ("Eq", "Ne")) or (c[0] == "call" and c[1].name in ("eq", "ne") and len(c[2]) == 2):
+            a, b = (c[2], c[3]) if c[0] == "bin" else (c[2][0], c[2][1])
+            eq = (c[1] == "Eq") if c[0] == "bin" else (c[1].name == "eq")
+            sa, sb = strip(a), strip(b)
+            while sa[0] in ("ref", "deref"): sa = strip(sa[1])
+            while sb[0] in ("ref", "deref"): sb = strip(sb[1])
+            if {side(sa), side(sb)} == {"l", "lit"}:
+                if mir.is_call(sa, "label") and mir.is_call(sb, "label"):
+                    return int(bool(same) == eq)
+                if mir.is_call(sa, "polarity") and mir.is_call(sb, "polarity"):
+                    return int((lp == p) == eq)
+                if sa in (LIT, ("param", 2)) and sb in (LIT, ("param", 2)):
+                    return int((bool(same) and lp == p) == eq)
+            raise Und("comparison %s" % show(c)[:60])
+        if c[0] == "bin" and c[1] in ("BitAnd", "BitOr"):
+            x, y = bval(c[2], case), bval(c[3], case)
+            return (x & y) if c[1] == "BitAnd" else (x | y)
+        if c[0] == "gamma":
+            v = bval(c[1], case)
+            for lab, t in c[2]:
+                if isinstance(lab, str) and lab in ("0", "1") and int(lab) == v:
+                    return bval(t, case)
+            for lab, t in c[2]:
+                if isinstance(lab, tuple) and lab[0] == "not" and str(v) not in lab[1]:
+                    return bval(t, case)
+            raise Und("choice %s" % show(c)[:60])
+        raise Und("term %s" % show(c)[:60])
+    cases = [(sm, lp, p) for sm in (0, 1) for lp in (0, 1) for p in (0, 1)]
+    errs = []
+    try:
+        for case in cases:
+            same, lp, p = case
+            a = bval(A, case)
+            # the clause is dropped when: any form -> neg and some literal has A; all form -> !(neg ^ all A') i.e. handled via A' below
+            if quant == "any":
+                drops = a if neg else None
+                if not neg:
+                    return und("the clause filter keeps clauses that contain a matching literal")
+            else:
+                # kept iff all(A') (neg must be False): a literal with A' false drops the clause
+                if neg:
+                    return und("the clause filter is a negated all()")
+                drops = 1 - a
+            want = int(bool(same) and lp == p)
+            if drops != want:
+                errs.append("a clause is %s because of a literal on %s with %s polarity" % (
+                    "dropped" if drops else "kept", "the conditioned variable" if same else "another variable",
+                    "the same" if lp == p else "the opposite"))
+            k = bval(Bt, case)
+            if not same and not k:
+                errs.append("a literal on another variable is removed from its clause")
+            if same and lp != p and k:
+                errs.append("the complement of the conditioning literal stays in its clause")
+    except Und as e:
+        return und("literal predicate not interpretable: %s" % e)
+    return inst("LC", key, VIOLATION if errs else OK, fn, None,
+                sorted(set(errs))[0] if errs else "same literal → clause dropped; complementary → literal dropped; other → kept (pipeline form)")
 
 
 _PROG = [None]
